@@ -299,6 +299,14 @@ def _run(pid, tier):
             if not e.get("names_ok", True) and "P6_names_recomputation" in mine:
                 rep.violation(e["act"]["op"], "P6_names_recomputation", {"mesh": kind, "actions": [x["act"] for x in t[:l + 1]]})
                 break
+        if "P1_ViewsAgree" in mine:
+            for l in range(1, len(t)):
+                if l > first_bad or "totals" not in t[l]:
+                    break
+                if not t[l]["totals"].get("wells_ok", True):
+                    rep.violation(t[l]["act"]["op"] + ":wells", "P1_ViewsAgree", {"mesh": kind, "actions": [x["act"] for x in t[:l + 1]],
+                                                                               "difference": "well lookup and well list disagree"})
+                    break
         # conservation as a floating-point leaf (decides states off the lattice, e.g. layers refined by 3, shipped geometries)
         for l in range(1, len(t)):
             if l > first_bad or "totals" not in t[l] or "totals" not in t[l - 1] or "error" in t[l]:
